@@ -93,6 +93,15 @@ def build(seed):
             add("fam.marker", lambda x=x: (lambda m: [str(m), m.evaluate({"os_name": "a", "extra": "A.b"}), hash(m) == hash(markers.Marker(x))])(markers.Marker(x)))
     for x in ["py3-none-any", "PY3-NONE-ANY", "Py3-None-Any"]:
         add("fam.tag", lambda x=x: [(str(t), t.interpreter, hash(t) == hash(tags.Tag("py3", "none", "any"))) for t in tags.parse_tag(x)])
+    # set-like inputs whose members collide after normalisation: rendering must not fall back on set iteration order
+    for r in ["pkg[my-extra,my_extra]>=1.0", "pkg[my_extra,my-extra]>=1.0", "pkg[Test,test,TEST]; python_version >= '3.8'",
+              "pkg[a.b,a-b,a_b,c] @ https://example.com/pkg.whl", "pkg[x,X,x_y,x-y,X.Y]==1.0,==1.0.0"]:
+        add("collide.req", lambda r=r: (lambda q: [str(q), sorted(q.extras), hash(q) == hash(requirements.Requirement(r))])(requirements.Requirement(r)))
+    add("collide.tags", lambda: sorted(str(t) for t in tags.parse_tag("py3.PY3.Py3-none.NONE-any.ANY")))
+    add("collide.meta", lambda: (lambda m: [m.provides_extra, m.dynamic, [str(r) for r in m.requires_dist]])(metadata.Metadata.from_raw(
+        {"metadata_version": "2.3", "name": "n", "version": "1", "provides_extra": ["a-b", "a_b", "A.B"], "dynamic": ["Classifier", "classifier"],
+         "requires_dist": ["x[e-f,e_f]>=1", "x[e_f,e-f]>=1"]}, validate=False)))
+    add("collide.set", lambda: (lambda a: [str(a), len(a), sorted(str(x) for x in a)])(specifiers.SpecifierSet("==1.0,>=1.a0,>=1.0.0a0,>=1.ALPHA")))
     extras = ["b", "a", "C_d", "e.f"]
     for i in range(4):
         ex = rng.sample(extras, rng.randrange(0, 4))
